@@ -44,8 +44,19 @@ func (fr *frame) loopVarValueT(li *loopInfo, name, decl string, st *State, phiVa
 			}
 		}
 	}
+	// a declaration with a basic type (`i int`) never means a variable of another type that happens to
+	// carry the name (a receiver called i after the counter was renamed)
+	declBasic := false
+	if decl != "" {
+		if tn, ok := types.Universe.Lookup(strings.TrimSpace(decl)).(*types.TypeName); ok && tn != nil {
+			declBasic = true
+		}
+	}
 	okObj := func(obj types.Object) bool {
 		if obj == nil || obj.Name() != name {
+			return false
+		}
+		if declBasic && !fr.typeMatches(obj, decl) {
 			return false
 		}
 		return !anyTyped || fr.typeMatches(obj, decl)
@@ -119,7 +130,7 @@ func (fr *frame) loopVarValueT(li *loopInfo, name, decl string, st *State, phiVa
 	if best == nil {
 		// parameters
 		for _, p := range fr.fn.Params {
-			if p.Name() == name {
+			if p.Name() == name && (p.Object() == nil || okObj(p.Object())) {
 				return fr.regs[p], true
 			}
 		}
@@ -135,7 +146,7 @@ func (fr *frame) loopVarValueT(li *loopInfo, name, decl string, st *State, phiVa
 				if bt, ok := phi.Type().Underlying().(*types.Basic); !ok || bt.Kind() != types.Int {
 					continue
 				}
-				if fr.monotone(li, phi) <= 0 {
+				if fr.monotone(li, phi) == 0 {
 					continue
 				}
 				pv, ok := phiVal(phi).(*Term)
@@ -149,6 +160,15 @@ func (fr *frame) loopVarValueT(li *loopInfo, name, decl string, st *State, phiVa
 				}
 			}
 			if len(cands) == 1 {
+				// The contract's variable is a ghost name for "where the loop is"; the renamed counter may
+				// be off by one against it (end = last+1). Engine.LoopShift selects the reading; any reading
+				// under which every obligation is discharged is a proof.
+				fr.c.counterFallback = true
+				sh := fr.c.e.LoopShift
+				if sh != 0 {
+					fr.c.note("loop %d of %s: contract variable %q not found by name; bound to the loop's only counter %+d", li.ordinal, fr.fn.Name(), name, sh)
+					return fr.c.f.Add(cands[0].(*Term), fr.c.f.Int(int64(sh))), true
+				}
 				fr.c.note("loop %d of %s: contract variable %q not found by name; bound to the loop's only counter", li.ordinal, fr.fn.Name(), name)
 				return cands[0], true
 			}
